@@ -1,12 +1,14 @@
 mod auth;
 mod codec;
 mod config;
+mod crash;
 mod distro;
 mod indexfile;
 mod logfile;
 mod logstore;
 mod naming;
 mod node;
+mod privs;
 mod apply;
 mod sequence;
 mod util;
@@ -24,10 +26,14 @@ fn main() {
         "logstore" => logstore::run(),
         "node" => node::run(args.get(2).map(|s| s.as_str()).unwrap_or("")),
         "apply" => apply::run(),
+        "crash" => crash::run(),
+        "crashchild" => crash::run_child(args.get(2).map(|s| s.as_str()).unwrap_or("")),
+        "crashprobe" => crash::run_probe(args.get(2).map(|s| s.as_str()).unwrap_or(""), args.get(3).and_then(|s| s.parse().ok()).unwrap_or(0)),
         "naming" => naming::run(),
         "config" => config::run(),
         "openapi" | "console" | "perm" => auth::run(model),
         "sequence" => sequence::run(),
+        "priv" => privs::run(),
         _ => {
             eprintln!("usage: harness <model>   (ops on stdin, one answer line per op on stdout)");
             std::process::exit(2);
